@@ -14,12 +14,14 @@ META = {
              "multiples) x a crop request by index or by coordinate with per-axis class {none, aligned, unaligned low, "
              "unaligned high, to the end, whole} or an invalid request {no range, negative, beyond the end, empty, "
              "inverted, coordinate off the axis}; valid -> conformance + volume/axes/headers equal the source "
-             "restricted to the widened box; invalid -> IndexError and no output; non-trivial = unaligned on >=1 "
+             "restricted to the widened box; invalid -> IndexError and no output; a source that is not a regular cube "
+             "(irregular survey, 2D line) x any valid box -> refused, and nothing written or changed at the output path; non-trivial = unaligned on >=1 "
              "axis, or ending in a partial block, or >=3 header arrays; distinct = (layout, per-axis box class, by, n_arrays)"),
     "assumptions": [
         "truth of the source = the harness's spec-only decode of its bytes; cropping must not re-compress, so equality is bitwise",
         "the version stamp of a cropped file may be the source's or the cropping library's, as long as the file follows the conventions of the stamp it carries",
         "for layouts other than 4x4xN the statement allows either a refusal (any exception, no output file) or a fully correct file",
+        "an irregular survey or a 2D line has no faithful crop (the cropped file is always a regular cube): the only correct outcome is a refusal (any exception) that leaves the output path as it was",
     ],
 }
 
@@ -110,6 +112,63 @@ def cases(draw, ctx, layouts):
     return case
 
 
+@st.composite
+def unsupported_cases(draw, ctx):
+    """Sources the cropper cannot re-address: its output is always a regular cube (one trace and one value of
+    every header array per grid position), so an irregular survey or a 2D line has no faithful crop."""
+    if draw(st.integers(0, 3)) == 0:
+        desc = draw(files.spec_file_2d(max_voxels=40_000))
+        n = [1, desc["shape"][0], desc["shape"][1]]
+    else:
+        desc = draw(files.spec_file_3d(irregular=True, max_voxels=60_000, layouts=("4x4", "4x4", "zs", "gen"), versions=["0.2.8"]))
+        n = desc["shape"]
+    bs = desc["blockshape"]
+    boxes = [draw(axis_box(n[k], bs[k]))[0] for k in range(3)]
+    if all(b is None for b in boxes):
+        boxes[1] = [0, n[1]]
+    return {"file": desc, "kind": "unsupported-source", "box": boxes, "existing_output": draw(st.booleans()),
+            "before": draw(st.sampled_from([None, None, "get_tracefield_values", "gen_trace_header"]))}
+
+
+def run_unsupported(case, ctx):
+    from seismic_zfp.cropping import SgzCropper
+    d = ctx.tmp()
+    path, T = files.build(case["file"], d, "src.sgz")
+    out = os.path.join(d, "crop.sgz")
+    sentinel = None
+    if case.get("existing_output"):
+        sentinel = b"previous content of the output path " * 7
+        with open(out, "wb") as fh:
+            fh.write(sentinel)
+    box = [None if b is None else tuple(b) for b in case["box"]]
+    what = "2D line" if T.is_2d else f"irregular survey ({T.n_tr} traces on a {T.n_il} x {T.n_xl} grid)"
+    exc = None
+    cropper = SgzCropper(path)
+    try:
+        if case.get("before") == "get_tracefield_values" and T.owners:
+            cropper.get_tracefield_values(T.owners[0])
+        elif case.get("before") == "gen_trace_header":
+            cropper.gen_trace_header(T.n_tr - 1)
+        try:
+            cropper.write_cropped_file_by_indexes(out, box[0], box[1], box[2])
+        except Exception as e:
+            exc = e
+    finally:
+        cropper.close()
+    if exc is None:
+        raise Violation("unsupported-source-not-refused", f"crop {case['box']} of a {what} returned normally "
+                        f"(output {os.path.getsize(out) if os.path.exists(out) else 'absent'} bytes)")
+    if sentinel is not None:
+        if not os.path.exists(out) or open(out, "rb").read() != sentinel:
+            raise Violation("refusal-touched-existing-output", f"crop {case['box']} of a {what} was refused ({type(exc).__name__}) but "
+                            f"the file already at the output path was changed or removed")
+    elif os.path.exists(out):
+        raise Violation("refusal-left-output", f"crop {case['box']} of a {what} was refused ({type(exc).__name__}: {exc}) but left "
+                        f"{os.path.getsize(out)} bytes at the output path")
+    return {"sig": ["unsupported", "2d" if T.is_2d else case["file"]["family"], bool(sentinel), case.get("before"), [b is None for b in box]],
+            "labels": ["unsupported-source", "2d" if T.is_2d else "irregular", type(exc).__name__]}
+
+
 def to_coords(T, box, k, offaxis=False, zaxis=None):
     if box is None:
         return None
@@ -142,6 +201,8 @@ def source_stage(T):
 
 def run_case(case, ctx):
     from seismic_zfp.cropping import SgzCropper
+    if case["kind"] == "unsupported-source":
+        return run_unsupported(case, ctx)
     d = ctx.tmp()
     path, T = files.build(case["file"], d, "src.sgz")
     out = os.path.join(d, "crop.sgz")
@@ -246,7 +307,9 @@ def run_case(case, ctx):
 def shard_main(ctx):
     if not ctx.explore("crop4x4", cases(ctx, ("4x4",)), run_case, ctx.n(150, 1500)):
         return
-    ctx.explore("cropother", cases(ctx, ("zs", "gen")), run_case, ctx.n(80, 800))
+    if not ctx.explore("cropother", cases(ctx, ("zs", "gen")), run_case, ctx.n(80, 800)):
+        return
+    ctx.explore("unsupported", unsupported_cases(ctx), run_case, ctx.n(40, 400))
 
 
 def replay(case, ctx):
